@@ -129,14 +129,24 @@ Section Sound.
     (forall t s, conv t (SText sval s) = OK None -> s = []) /\ (forall t v, conv t (SNat sval v) <> OK None).
   Definition no_empty_text (kw : list (string * kwval)) : Prop :=
     forall k, assoc k kw <> Some (KText sval []).
+  (** ... or, for ANY keyword arguments (empty strings included): what the real converters do with "": never a value, and refused
+      where the class requires the element (checked on every real converter by the correspondence run) *)
+  Definition conv_empty_never_value : Prop := forall t x, conv t (SText sval []) <> OK (Some x).
+  Definition conv_required_refuses_empty (c : cinfo) : Prop :=
+    forall k t, In (k, AElem t true) (spec_no_list c) -> conv t (SText sval []) <> OK None.
+  (** either way an empty text among the keywords does no harm *)
+  Definition empties_harmless (c : cinfo) (kw : list (string * kwval)) : Prop :=
+    no_empty_text kw \/ (conv_empty_never_value /\ conv_required_refuses_empty c).
 
-  Lemma field_rel_decl kw ka f : conv_none_only_empty -> no_empty_text kw -> field_rel kw ka f -> field_decl_ok ka f.
+  Lemma field_rel_decl c kw ka f : conv_none_only_empty -> empties_harmless c kw -> In ka (spec_no_list c) -> field_rel kw ka f -> field_decl_ok ka f.
   Proof.
-    intros [H1 H2] Hne. destruct ka as [k a], f as [k' v]. unfold field_rel, field_decl_ok, kwget. cbn [fst snd]. intros [-> H]. split; [reflexivity|].
+    intros [H1 H2] Hne Hin. destruct ka as [k a], f as [k' v]. unfold field_rel, field_decl_ok, kwget. cbn [fst snd]. intros [-> H]. split; [reflexivity|].
     destruct a as [t req|target req|target|t|]; try contradiction.
     - destruct (assoc k kw) as [[|s|x|j]|] eqn:Ek; try contradiction.
       + destruct H as [-> ->]. reflexivity.
-      + destruct H as [(x & _ & ->)|[Hn ->]]; [exact I|]. apply H1 in Hn. subst s. exfalso. exact (Hne k Ek).
+      + destruct H as [(x & _ & ->)|[Hn ->]]; [exact I|]. pose proof (H1 _ _ Hn) as Hs. subst s.
+        destruct Hne as [Hne|[_ Hreq]]; [exfalso; exact (Hne k Ek)|].
+        destruct req; [|reflexivity]. exfalso. exact (Hreq k t Hin Hn).
       + destruct H as [(y & _ & ->)|[Hn ->]]; [exact I|]. exfalso. exact (H2 _ _ Hn).
       + destruct H as [-> ->]. reflexivity.
     - destruct (assoc k kw) as [[|s|x|j]|] eqn:Ek; try contradiction.
@@ -144,6 +154,13 @@ Section Sound.
       + destruct H as [Hi ->]. exact Hi.
       + destruct H as [-> ->]. reflexivity.
     - rewrite H. exact I.
+  Qed.
+
+  Lemma forall2_impl_in {A B} (P Q : A -> B -> Prop) l l' : (forall a b, In a l -> P a b -> Q a b) -> Forall2 P l l' -> Forall2 Q l l'.
+  Proof.
+    intros H F. induction F as [|a b l l' Hab F IH]; constructor.
+    - apply H; [left; reflexivity|exact Hab].
+    - apply IH. intros a' b' Hin. apply H. right. exact Hin.
   Qed.
 
   Lemma forall2_impl {A B} (P Q : A -> B -> Prop) l l' : (forall a b, P a b -> Q a b) -> Forall2 P l l' -> Forall2 Q l l'.
@@ -171,7 +188,7 @@ Section Sound.
 
   (** presence of a group member on the instance = presence of its keyword *)
   Lemma present_agree c kw fs m :
-    conv_none_only_empty -> no_empty_text kw -> NoDup (map fst (ci_spec c)) ->
+    conv_none_only_empty -> empties_harmless c kw -> NoDup (map fst (ci_spec c)) ->
     Forall2 (field_rel kw) (spec_no_list c) fs -> mutex_member_ok c m = true ->
     field_present fs m = kw_notnone sval kw m.
   Proof.
@@ -191,7 +208,10 @@ Section Sound.
     destruct a as [t req|target req|target|t|]; try discriminate.
     - destruct (assoc m kw) as [[|s|x|j]|] eqn:Ek; try contradiction.
       + destruct Hrel as [_ ->]. reflexivity.
-      + destruct Hrel as [(x & _ & ->)|[Hn ->]]; [reflexivity|]. apply H1 in Hn. subst s. exfalso. exact (Hne m Ek).
+      + destruct s as [|ch s].
+        * destruct Hne as [Hne|[Hnv _]]; [exfalso; exact (Hne m Ek)|].
+          destruct Hrel as [(x & Hx & _)|[_ ->]]; [exfalso; exact (Hnv _ _ Hx)|reflexivity].
+        * destruct Hrel as [(x & _ & ->)|[Hn ->]]; [reflexivity|]. apply H1 in Hn. discriminate.
       + destruct Hrel as [(y & _ & ->)|[Hn ->]]; [reflexivity|]. exfalso. exact (H2 _ _ Hn).
       + destruct Hrel as [_ ->]. reflexivity.
     - destruct (assoc m kw) as [[|s|x|j]|] eqn:Ek; try contradiction.
@@ -228,17 +248,18 @@ Section Sound.
   Qed.
 
   (** keyword route: "every instance that exists satisfies all constraints of its class" *)
-  Theorem construct_sound_l cn args kw i :
-    conv_none_only_empty -> no_empty_text kw -> (forall c, find_cls S cn = Some c -> groups_wf c) ->
+  Theorem construct_sound_gen_l cn args kw i :
+    conv_none_only_empty -> (forall c, find_cls S cn = Some c -> empties_harmless c kw) -> (forall c, find_cls S cn = Some c -> groups_wf c) ->
     construct cn args kw = OK i -> satisfies i.
   Proof.
-    intros Hc Hne Hwf H. apply construct_ok_iff in H.
+    intros Hc Hne0 Hwf H. apply construct_ok_iff in H.
     destruct H as (c & fs & ms & Hcls & Hh & Ho & Hr & Hf & Ha & Hrs & ->).
+    pose proof (Hne0 c Hcls) as Hne.
     destruct (Hwf c Hcls) as [Hnd Hg]. exists c. cbn [icls ifields imembers]. split; [exact Hcls|].
     pose proof (set_fields_rel _ _ _ Hf) as F.
     rewrite forallb_app in Hg. apply andb_true_iff in Hg. destruct Hg as [Hgo Hgr].
     split; [|split; [|split]].
-    - eapply forall2_impl; [|exact F]. intros a b. apply field_rel_decl; assumption.
+    - eapply forall2_impl_in; [|exact F]. intros a b Hin. apply (field_rel_decl c); assumption.
     - apply (apply_args_members c args ms Ha).
     - apply Forall_forall. intros g Hg. unfold optmx_ok in Ho. rewrite forallb_forall in Ho, Hgo. specialize (Ho g Hg). specialize (Hgo g Hg).
       apply Nat.leb_le in Ho. unfold count_present in Ho.
@@ -249,6 +270,20 @@ Section Sound.
       rewrite (filter_ext_in (field_present fs) (kw_notnone sval kw) g); [exact Hr|].
       intros m Hm. rewrite forallb_forall in Hgr. apply (present_agree c kw fs m Hc Hne Hnd F (Hgr m Hm)).
   Qed.
+
+  (** keyword route: "every instance that exists satisfies all constraints of its class" - for keyword arguments without an empty
+      string (what conversion from a tree passes) ... *)
+  Theorem construct_sound_l cn args kw i :
+    conv_none_only_empty -> no_empty_text kw -> (forall c, find_cls S cn = Some c -> groups_wf c) ->
+    construct cn args kw = OK i -> satisfies i.
+  Proof. intros Hc Hne. apply construct_sound_gen_l; [exact Hc|]. intros c _. left. exact Hne. Qed.
+
+  (** ... and for ANY keyword arguments, empty strings included, given what the real converters do with "" *)
+  Theorem construct_sound_any_kw_l cn args kw i :
+    conv_none_only_empty -> conv_empty_never_value -> (forall c, find_cls S cn = Some c -> conv_required_refuses_empty c) ->
+    (forall c, find_cls S cn = Some c -> groups_wf c) ->
+    construct cn args kw = OK i -> satisfies i.
+  Proof. intros Hc Hv Hq. apply construct_sound_gen_l; [exact Hc|]. intros c Hcls. right. split; [exact Hv|exact (Hq c Hcls)]. Qed.
 
   (** ---- each violation, stated directly on the input, is rejected (keyword route) ---- *)
   Lemma not_ok_err {A} (r : result A) : (forall a, r <> OK a) -> exists k, r = Err k.
